@@ -571,6 +571,13 @@ def check_timer(case):
         from mpf.core.placeholder_manager import NativeTypeTemplate
         for op in case["ops"]:
             t = rig.now
+            if op[0] in ("set_tick_interval", "change_tick_interval"):
+                new_iv = op[1] if op[0] == "set_tick_interval" else model.iv * op[1]
+                if new_iv < 2 * J + 0.001:
+                    # a tick interval below the lateness of the loop: which ticks have happened by a given instant is no
+                    # longer determined (excluded, counted)
+                    model.classes.add("tick interval below the loop's lateness (skipped)")
+                    continue
             if op[0] == "advance":
                 rig.advance(op[1] / 1000.0)
                 model.quiesce(rig.now, "after advance")
